@@ -245,6 +245,49 @@ def main():
                       dict(area='aggregate', construct='copy-size'))
     else: nontriv += len(sizes)
 
+    # ---------------- (b3) objects whose type ends in a flexible array member ----------------
+    # such an object occupies at least sizeof(struct) bytes, also when its initialized flexible part is shorter than the tail padding; a whole-struct
+    # store through a pointer writes sizeof(struct) bytes and must leave the neighbouring objects (and flexible elements beyond sizeof) alone
+    NF = 12 if run.quick() else 80
+    L = ['int printf(const char *, ...); int bad;']; calls = []
+    for k in range(NF):
+        pre = [rng.choice(['char', 'short', 'int', 'long', 'long double', 'char']) for _ in range(rng.randint(1, 3))]
+        if rng.random() < 0.6: pre[0] = rng.choice(['long', 'int', 'long double'])      # tail padding needs an aligned member before a small one
+        if rng.random() < 0.6: pre.append('char')
+        fet = rng.choice(['char', 'char', 'short', 'int'])
+        al = rng.choice(['', '', '_Alignas(16) ', '_Alignas(32) '])
+        L.append('struct F%d { %s%s %s d[]; };' % (k, al, ' '.join('%s m%d;' % (t, i) for i, t in enumerate(pre)), fet))
+        objs = []; decl = []
+        for j in range(rng.randint(2, 4)):
+            st, sv = rng.choice([('char', 0x11), ('short', 0x2222), ('int', 0x33333333), ('char', 0x44)])
+            decl.append('%s%s s%d_%d = %d;' % (rng.choice(['', 'static ']), st, k, j, sv + j))
+            nfl = rng.choice([0, 0, 1, 2, 3, 5, 9])
+            init = ', '.join(str(i + 1) for i in range(len(pre))) + (', { %s }' % ', '.join(str(40 + i) for i in range(nfl)) if nfl else '')
+            decl.append('%sstruct F%d o%d_%d = { %s };' % (rng.choice(['', 'static ']), k, k, j, init)); objs.append((j, nfl, st, sv + j))
+        decl.append('char e%d = 0x55;' % k)
+        L.append(' '.join(decl)); L.append('struct F%d src%d = { %s };' % (k, k, ', '.join(str(90 + i) for i in range(len(pre)))))
+        body = ['static void f%d(void) { struct F%d *p; int sz = (int)sizeof(struct F%d);' % (k, k, k)]
+        for j, nfl, st, sv in objs:
+            body.append('  p = &o%d_%d; if ((unsigned long)p %% _Alignof(struct F%d)) { bad++; printf("F%d: o%d_%d misaligned\\n"); }' % (k, j, k, k, k, j))
+            body.append('  %s p->m0 = src%d.m0;' % ('*p = src%d;' % k if rng.random() < 0.8 else '{ struct F%d tmp = src%d; *p = tmp; }' % (k, k), k))
+        for j, nfl, st, sv in objs:
+            body.append('  if (s%d_%d != %d) { bad++; printf("F%d: s%d_%d clobbered\\n"); }' % (k, j, sv, k, k, j))
+            body.append('  if (o%d_%d.m0 != 90 || o%d_%d.m%d != %d) { bad++; printf("F%d: o%d_%d not stored\\n"); }' % (k, j, k, j, len(pre) - 1, 90 + len(pre) - 1, k, k, j))
+            for i in range(nfl):
+                body.append('  if ((int)((char *)&o%d_%d.d[%d] - (char *)&o%d_%d) >= sz && o%d_%d.d[%d] != %d) { bad++; printf("F%d: o%d_%d.d[%d] clobbered\\n"); }' % (k, j, i, k, j, k, j, i, 40 + i, k, k, j, i))
+        body.append('  if (e%d != 0x55) { bad++; printf("F%d: e clobbered\\n"); } }' % (k, k))
+        L.append('\n'.join(body)); calls.append('f%d();' % k)
+    L.append('int main(void) { %s printf("done %%d\\n", bad); return 0; }' % ' '.join(calls))
+    f = os.path.join(wd, 'famobjects.c'); open(f, 'w').write('\n'.join(L) + '\n')
+    o1, w1 = build_run(f, 'chibicc'); o2, w2 = build_run(f, 'gcc')
+    evals += NF; count('fam-object', NF)
+    if o2 != 'done 0\n': run.corr_broken.append('flexible-array-member program is wrong under gcc: %s %s' % (o2, (w2 or '')[-300:]))
+    elif o1 != 'done 0\n':
+        run.violation(dict(kind='fam-object', failing=(o1 if o1 is not None else w1)[:400], program=open(f).read()[:6000],
+                           how='objects of struct types ending in a flexible array member between sentinel objects; *p = src through a pointer; sentinels, stored members, flexible elements beyond sizeof and alignment checked by the program itself (prints done 0); gcc prints done 0'),
+                      dict(area='aggregate', construct='fam-object'))
+    else: nontriv += NF
+
     # ---------------- (c) element addresses ----------------
     ITY = [('signed char', 8, True), ('unsigned char', 8, False), ('short', 16, True), ('unsigned short', 16, False), ('int', 32, True), ('unsigned', 32, False), ('long', 64, True), ('unsigned long', 64, False)]
     ETY = [('char', 1), ('short', 2), ('int', 4), ('long', 8), ('struct E12', 12), ('struct E70000', 70000), ('int[1024]', 4096), ('long double', 16)]
